@@ -245,7 +245,7 @@ def floatenum_case(draw):
     # a start value from the configuration, for the float or for the index (position among the allowed ones)
     cfg = draw(st.sampled_from([None, None, 'float', 'idx']))
     return {'kind': 'floatenum', 'labels': labels, 'unit': unit, 'ops': ops, 'with_write_idx': draw(st.sampled_from([False, True, 'coerce'])),
-            'cfg': cfg, 'cfg_pos': draw(st.integers(0, 5))}
+            'cfg': cfg, 'cfg_pos': draw(st.integers(0, 5)), 'hide': draw(st.sampled_from([None, None, None, 'idx', 'float']))}
 
 
 def check_floatenum(ctx, case):
@@ -279,6 +279,10 @@ def check_floatenum(ctx, case):
         modcfg['fr'] = {'value': cvd[cidx]}
     elif case.get('cfg') == 'idx':
         modcfg['fr_idx'] = {'value': cidx}
+    if case.get('hide') in ('idx', 'float'):
+        # one of the two linked parameters is hidden from the clients by the configuration: they stay linked
+        key = 'fr_idx' if case['hide'] == 'idx' else 'fr'
+        modcfg[key] = dict(modcfg.get(key, {}), export=False)
     kit = Kit({'f': modcfg})
     if kit.errors:
         ctx.finding('floatenum:node-refused' + (':cfg-' + case['cfg'] if case.get('cfg') else ''), case, repr(kit.errors)[:300])
@@ -320,6 +324,8 @@ def check_floatenum(ctx, case):
         ctx.ev()
         sub = dict(case, ops=case['ops'][:n + 1])
         k = op['op']
+        if case.get('hide') == 'float' and k in ('change-float', 'read') or case.get('hide') == 'idx' and k == 'change-idx':
+            continue      # (not reachable for a client)
         if k == 'change-float':
             x = op['x']
             r = kit.request(conn, ('change', 'f:_fr', x))
